@@ -247,7 +247,7 @@ func (g *genCfg) pick(rng *rand.Rand, o, d *Obj) (Call, string) {
 			}
 			return Call{"op": "Marshal", "kind": allKinds[rng.Intn(5)], "xs": xs}, "st"
 		case "SetAuxiliary":
-			return Call{"op": "SetAuxiliary", "form": []string{"none", "nil", "map"}[rng.Intn(3)]}, "st"
+			return Call{"op": "SetAuxiliary", "form": []string{"none", "nil", "map", "map0"}[rng.Intn(4)]}, "st"
 		case "SetLogger":
 			return Call{"op": "SetLogger", "arg": []string{"stdout", "STDOUT", "int1", "stderr", "StdErr", "int2", "custom", "off", "discard", "int0", "nil", "junk", "int7"}[rng.Intn(13)]}, "st"
 		case "SetID":
